@@ -278,6 +278,28 @@ def test_interval(repo, f, expr):
       others.append(c)
   if found is None:
     iv = interval_of(expr)
+    if iv is None:
+      # a one-sided test `guard and v > hi` / `v < lo`: half an interval (the missing side is None)
+      halves = [(c, _half(au.strip_not(c)[0]), au.strip_not(c)[1]) for c in conjuncts]
+      cmp_ = [(c, h, n_) for c, h, n_ in halves if h is not None]
+      rest = [c for c, h, n_ in halves if h is None]
+      if len(cmp_) == 1 and all(isinstance(r_, ast.Compare) and len(r_.ops) == 1 and isinstance(r_.ops[0], (ast.Is, ast.IsNot)) for r_ in rest):
+        c, (l, op, r), n_ = cmp_[0]
+        lt = op in (ast.Lt, ast.LtE)
+        strict = op in (ast.Lt, ast.Gt)
+        # orientation: the side carrying a subscript/attribute of a range is the bound; default: right operand is the bound
+        vnode, bound, v_below = l, r, lt
+        if isinstance(l, ast.Subscript) and not isinstance(r, ast.Subscript):
+          vnode, bound, v_below = r, l, not lt
+        # the comparison (true) says v < bound: a *rejecting* test rejects values below `bound` => bound is the lower limit
+        rejecting = not n_
+        if rejecting:
+          iv = Interval(vnode, bound if v_below else None, None if v_below else bound, strict if v_below else None, None if v_below else strict, False)
+        else:
+          iv = Interval(vnode, None if v_below else bound, bound if v_below else None, None if v_below else not strict, not strict if v_below else None, True)
+        if neg:
+          iv.accept_when = not iv.accept_when
+        return iv, rest
     return (iv, []) if iv is not None else (None, [])
   if len(conjuncts) > 1:
     # test = guard and reject(v): accepted when the whole conjunction has truth `found.accept_when` only if ... keep polarity of the range part
